@@ -79,6 +79,10 @@ def library (name : String) : Option Fn :=
   | "CUSTOM" => some fnCUSTOM
   | _ => none
 
+/-- text transform `bracket`: every text run is wrapped in `[` `]` (not the identity on any input, in particular
+not on the isolation marks, should they ever be handed to the transform) -/
+def bracketText (b : Bytes) : Bytes := [91] ++ b ++ [93]
+
 /-- text transform `upper`: ASCII lower-case letters to upper case -/
 def upperAscii (b : Bytes) : Bytes := b.map fun c => if 97 ≤ c && c ≤ 122 then c - 32 else c
 
